@@ -88,6 +88,31 @@ fn check_pair<K: Kit>(ctx: &Ctx, b: &mut Batch, kit: &K, sp: &K::SP, spec: &Spec
         } else if !(e2 <= tol) {
             rep("speed-to", format!("d(I_t,b)={db} expected (1-t)*d(a,b)={} (d(a,b)={l}, tol {tol:e})", (1.0 - t) * l));
         }
+        // a component of weight 0 is invisible to the metric, but interpolation still has to
+        // carry it from `from` to `to`: at t = 0 / t = 1 it must hold the end point's value
+        if (t == 0.0 || t == 1.0) && !spec.is_plain() {
+            let target = if t == 0.0 { fa } else { fb };
+            let mut o = 0;
+            for (ci, c) in spec.comps.iter().enumerate() {
+                let w = c.kind.width();
+                if spec.eff_weight(ci) == 0.0 {
+                    b.count("zero_weight_endpoint_checks", 1);
+                    let (x, y, xa, xb) = (&fo[o..o + w], &target[o..o + w], &fa[o..o + w], &fb[o..o + w]);
+                    let same = match c.kind {
+                        CK::R { .. } => (0..w).all(|i| (x[i] - y[i]).abs() <= 1e-9 * (1.0 + xa[i].abs() + xb[i].abs())),
+                        CK::So2 { .. } => {
+                            let d = (x[0] - y[0]).abs() % (2.0 * std::f64::consts::PI);
+                            d.min(2.0 * std::f64::consts::PI - d) <= 1e-9 * (1.0 + xa[0].abs() + xb[0].abs())
+                        }
+                        CK::So3 { .. } => (0..4).all(|i| (x[i] - y[i]).abs() <= 1e-7) || (0..4).all(|i| (x[i] + y[i]).abs() <= 1e-7),
+                    };
+                    if !same {
+                        rep("zero-weight-component-not-carried", format!("component {ci} (weight 0) of I(a,b,{t}) is {:?}, the end point has {:?}", x, y));
+                    }
+                }
+                o += w;
+            }
+        }
         // exactly antipodal end points have two shortest paths, but the implementation breaks the
         // tie the same way in both directions; only when rounding makes 1-t inexact near the
         // antipode is the comparison skipped
